@@ -20,7 +20,9 @@ for d in sorted(os.listdir('/verif/seeded')):
         detected='yes' if det.get('detected') else '**NO**'
     else:
         checks='-'; sig=det.get('status','not run'); detected='?'
-    rows.append(f"| {d} | `{site.replace('quizx/src/','')}` | {detected} | {checks} | `{sig[:90]}` |")
-print("| Seed | Site | Caught (quick, seed 1) | By | First signature (hits) |")
-print("|------|------|------------------------|----|------------------------|")
+    first='missed' if str(m.get('first_run','')).startswith(('missed','seen only')) else ''
+    rnd=m.get('round','')
+    rows.append(f"| {d} | {rnd} | `{site.replace('quizx/src/','')}` | {first} | {detected} | {checks} | `{sig[:80]}` |")
+print("| Seed | Round | Site | First run | Caught now (quick, seed 1) | By | First signature (hits) |")
+print("|------|-------|------|-----------|----------------------------|----|------------------------|")
 print('\n'.join(rows))
